@@ -365,6 +365,13 @@ func (s *snappyCodec) decompress(compressed []byte) ([]byte, error) {
 	if len(compressed) < 4 {
 		return nil, errors.New("snappy block is too short to contain a checksum")
 	}
+	// Check the length the block claims to decode to before snappy allocates
+	// it. No snappy element expands to more than 64 bytes from 3.
+	if n, err := snappy.DecodedLen(compressed[:len(compressed)-4]); err != nil {
+		return nil, fmt.Errorf("snappy decode failed: %w", err)
+	} else if n > 32*len(compressed) {
+		return nil, errors.New("snappy block declares an impossible decoded length")
+	}
 	var err error
 	s.buf, err = snappy.Decode(s.buf[:cap(s.buf)], compressed[:len(compressed)-4])
 	if err != nil {
